@@ -418,7 +418,7 @@ func (w *world) judge(tag string, rd Read, res result, before, after map[desync.
 		case zeros && before[id] > 0:
 			sig, why = "C10:read:stale-zeros-after-error", "an earlier fetch of this chunk failed; this read returned the unpopulated zeros of the cache file with a nil/EOF error"
 		case zeros && after[id] > 0:
-			sig, why = "C10:read:zeros-concurrent-fetch-failed", "a fetch of this chunk failed while this read was running; the read returned the unpopulated zeros with a nil/EOF error"
+			sig, why = "C10:read:zeros-fetch-failed-during-read", "a fetch of this chunk (by this read or by a concurrent one) failed while this read was running; the read returned the unpopulated zeros with a nil/EOF error"
 		case zeros:
 			sig, why = "C10:read:zeros-unpopulated", "zeros of an unpopulated range returned although no fetch of this chunk failed in this instance"
 		default:
